@@ -25,9 +25,11 @@ Classification:
                       len == MAX-2: the precondition of `append_panic_receipt(..).expect("cannot fail")` — the one
                       deliberate host-panic site on the program-error path — for every program.
   TAB-bug-sites       the construction sites of Bug (internal-bug errors) are the reviewed table
-                      tables/C29_bug_sites.json: (function, variant, controlling guard / failing source). A new
-                      site, or a site whose guard changed, is reported (fail closed: each listed site was read and
-                      is unreachable for checked transactions; the table records why).
+                      tables/C29_bug_sites.json: (function, variant, canonical controlling condition / failing
+                      source — fvlib.core.site_guard, compared with guards_match as in C19 TAB-rule-guards, so
+                      `checked_sub(..).ok_or_else(..)?` and the equivalent `match` are the same row). A new site, or a
+                      site whose condition changed, is reported (fail closed: each listed site was read and is
+                      unreachable for checked transactions; the table records why).
 Not decided: host-panic freedom of the whole interpreter (792 panic-capable MIR operations are reachable from
 execute(); discharging each needs value reasoning), termination under non-default schedules with zero costs.
 """
@@ -36,8 +38,8 @@ import os
 import re
 
 from fvlib.core import (CFG, CallGraph, arm_regions, assignments, bool_consumers, call_blocks, calls, callee_matches,
-                        callee_name, controlling_guard, describe, leaves, root_of, short, switch_arms)
-from fvlib import vm
+                        callee_name, describe, leaves, parent_fn, root_of, short, site_guard, switch_arms)
+from fvlib import tables, vm
 
 TABLE = os.path.join(os.path.dirname(os.path.dirname(os.path.abspath(__file__))), "tables", "C29_bug_sites.json")
 IMPL = r"^fuel_vm::interpreter::executors::instruction::<impl fuel_vm::interpreter::Interpreter<M, S, Tx, Ecal, V>>::"
@@ -95,33 +97,17 @@ def cycles_avoiding(f, cfg, avoid):
 
 
 def bug_sites(F, cg):
-    """[(fn, variant, descriptor)] for every `BugVariant::X` aggregate in fuel_vm (non-test)."""
+    """[(fn, variant, descriptor, where)] for every `BugVariant::X` aggregate in fuel_vm (non-test)."""
     out = []
     for n, f in F.all_fns(["fuel_vm"]):
         if "::tests::" in n or "::test::" in n or n.startswith("<fuel_vm::error::") or n.startswith("fuel_vm::error::"):
             continue
+        cfg = None
         for i, j, p, rv, line in assignments(f):
             if rv[0] == "agg" and rv[1].endswith("::BugVariant"):
-                var = rv[2]
-                m = re.match(r"^(.*)::\{closure#(\d+)\}$", n)
-                if m and m.group(1) in cg.fns:
-                    pf = cg.fns[m.group(1)]
-                    src = None
-                    for bi, c, args, dest, tgt, l in calls(pf):
-                        if callee_matches(c, r"(ok_or_else|ok_or|map_err|unwrap_or_else)$") and len(args) == 2 and ("closure#%s}" % m.group(2)) in describe(pf, args[1]):
-                            src = {"kind": "source", "via": callee_name(c).rsplit("::", 1)[-1], "tokens": leaves(describe(pf, args[0], depth=10))}
-                    desc = src or {"kind": "closure-unresolved"}
-                    out.append((m.group(1), var, desc, "%s:%s" % (f["file"], line)))
-                else:
-                    cfg = CFG(f)
-                    g = controlling_guard(f, cfg, i)
-                    g.pop("bb", None)
-                    # an `ok_or(Bug)` argument: evaluated eagerly, failing source is the Option
-                    for bi, c, args, dest, tgt, l in calls(f):
-                        if callee_matches(c, r"Option::<T>::ok_or$") and "BugVariant" in describe(f, args[1], depth=12) and bi in cfg.reachable_incl(i):
-                            g = {"kind": "source", "via": "ok_or", "tokens": leaves(describe(f, args[0], depth=10))}
-                            break
-                    out.append((n, var, g, "%s:%s" % (f["file"], line)))
+                cfg = cfg or CFG(f)
+                for g in site_guard(F, n, f, cfg, i, value_local=p[0] if len(p) == 1 else None, value_rx="BugVariant"):
+                    out.append((parent_fn(n), rv[2], g, "%s:%s" % (f["file"], line)))
     return out
 
 
@@ -390,15 +376,7 @@ def run(F, rep, tier, allfacts):
         json.dump({k: {"guards": [d for d, _ in v], "why_unreachable": ""} for k, v in sorted(cur.items())}, open(TABLE + ".new", "w"), indent=1, sort_keys=True)
     table = json.load(open(TABLE))
     rep.floor("TAB-bug-sites", "Bug construction sites", len(sites), 12)
-    for key, lst in sorted(cur.items()):
-        row = table.get(key)
-        if row is None:
-            rep.bad("TAB-bug-sites", "UNREVIEWED:" + key, lst[0][1], "new internal-bug construction site %s (guard %s): must be shown unreachable and added to tables/C29_bug_sites.json" % (key, [d for d, _ in lst]))
-            continue
-        got = sorted(json.dumps(d, sort_keys=True) for d, _ in lst)
-        want = sorted(json.dumps(d, sort_keys=True) for d in row["guards"])
-        rep.check(got == want, "TAB-bug-sites", "guard:" + key, lst[0][1],
-                  "the condition under which %s is constructed changed: now %s, reviewed %s (%s)" % (key, got, want, row.get("why_unreachable", "")))
+    tables.compare(rep, "TAB-bug-sites", table, cur, missing_is_violation=False, new_is_violation=True, what="internal-bug construction site", reason_key="why_unreachable")
     for key in table:
         if key not in cur:
             rep.note("TAB-bug-sites: reviewed site %s no longer exists" % key)
